@@ -511,7 +511,93 @@ pub fn c09_defaults<const N: usize>() {
     vf::check(tok::balanced(), 302);
 }
 
+// ------------------------------------------------------------------------------------------ zero-sized elements
+/// zero-sized key and value (`Map<(), (), N>`, `Set<(), N>`): all slots share one address, so an iterator that finds
+/// its end by comparing pointers sees an empty range.  One entry at most can be stored (all keys are equal).
+macro_rules! zst_walk {
+    ($mk:expr, $n:expr, $cap:expr) => {{
+        let mut it = $mk;
+        let mut seen = 0usize;
+        let mut i = 0usize;
+        while i <= $cap {
+            let left = $n - seen;
+            vf::check(it.len() == left, 601);
+            vf::check(it.size_hint() == (left, Some(left)), 602);
+            match it.next() { Some(_) => { vf::check(seen < $n, 604); seen += 1; } None => { vf::check(seen == $n, 604); } }
+            i += 1;
+        }
+        vf::check(it.next().is_none(), 606);
+        vf::check(seen == $n, 604);
+    }};
+}
+fn zst_map<const N: usize>() -> (Map<(), (), N>, usize) {
+    let mut m: Map<(), (), N> = unsafe { vf::garbage() };
+    vf::assume(m.len() == 0);
+    let (put, again, del) = (vf::any_bool(), vf::any_bool(), vf::any_bool());
+    if N > 0 {
+        if put { vf::check(m.insert((), ()).is_none(), 100); }
+        if put && again { vf::check(m.insert((), ()).is_some(), 100); }
+        if put && del { vf::check(m.remove(&()).is_some(), 100); }
+    }
+    let n = if N > 0 && put && !del { 1 } else { 0 };
+    vf::check(m.len() == n && m.contains_key(&()) == (n == 1), 201);
+    (m, n)
+}
+fn zst_set<const N: usize>() -> (Set<(), N>, usize) {
+    let mut s: Set<(), N> = unsafe { vf::garbage() };
+    vf::assume(s.len() == 0);
+    let (put, again, del) = (vf::any_bool(), vf::any_bool(), vf::any_bool());
+    if N > 0 {
+        if put { vf::check(s.insert(()), 100); }
+        if put && again { vf::check(!s.insert(()), 100); }
+        if put && del { vf::check(s.remove(&()), 100); }
+    }
+    let n = if N > 0 && put && !del { 1 } else { 0 };
+    vf::check(s.len() == n && s.contains(&()) == (n == 1), 201);
+    (s, n)
+}
+/// W: 0 iter 1 keys 2 values 3 iter_mut 4 values_mut 5 Set::iter (+ count() and a cloned iterator where there is one)
+pub fn c09_zst<const N: usize, const W: u8>() {
+    let (mut m, n) = zst_map::<N>();
+    let (s, sn) = zst_set::<N>();
+    match W {
+        0 => { zst_walk!(m.iter(), n, N); vf::check(m.iter().count() == n && m.iter().clone().count() == n, 605); vf::check((&m).into_iter().count() == n, 605); }
+        1 => { zst_walk!(m.keys(), n, N); vf::check(m.keys().count() == n && m.keys().clone().len() == n, 605); }
+        2 => { zst_walk!(m.values(), n, N); vf::check(m.values().count() == n, 605); }
+        3 => { zst_walk!(m.iter_mut(), n, N); vf::check(m.iter_mut().count() == n, 605); vf::check((&mut m).into_iter().count() == n, 605); }
+        4 => { zst_walk!(m.values_mut(), n, N); vf::check(m.values_mut().count() == n, 605); }
+        _ => { zst_walk!(s.iter(), sn, N); vf::check(s.iter().count() == sn && (&s).into_iter().count() == sn, 605); }
+    }
+    if n + sn > 0 { vf::reach(1); } else { vf::reach(2); }
+    vf::check(m.len() == n && s.len() == sn, 811);
+}
+/// W: 0 into_iter 1 into_keys 2 into_values 3 drain 4 Set::into_iter 5 Set::drain
+pub fn c10_zst<const N: usize, const W: u8>() {
+    let (mut m, n) = zst_map::<N>();
+    let (mut s, sn) = zst_set::<N>();
+    if n + sn > 0 { vf::reach(1); } else { vf::reach(2); }
+    match W {
+        0 => { zst_walk!(m.into_iter(), n, N); }
+        1 => { zst_walk!(m.into_keys(), n, N); }
+        2 => { zst_walk!(m.into_values(), n, N); }
+        3 => {
+            let j = vf::any_usize();
+            { let mut d = m.drain(); vf::check(d.len() == n, 601); if j > 0 { vf::check(d.next().is_some() == (n == 1), 604); } }
+            vf::check(m.len() == 0 && m.is_empty(), 612);
+            if N > 0 { vf::check(m.insert((), ()).is_none() && m.len() == 1, 613); zst_walk!(m.drain(), 1usize, N); vf::check(m.is_empty(), 612); }
+        }
+        4 => { zst_walk!(s.into_iter(), sn, N); }
+        _ => {
+            { let mut d = s.drain(); vf::check(d.len() == sn, 601); zst_walk!(d, sn, N); }
+            vf::check(s.len() == 0, 612);
+            if N > 0 { vf::check(s.insert(()) && s.len() == 1, 613); }
+        }
+    }
+}
+
 harnesses! {
+    c09_zst: [1, 0] [1, 1] [1, 2] [1, 3] [1, 4] [1, 5] [2, 0] [2, 1] [2, 2] [2, 3] [2, 4] [2, 5];
+    c10_zst: [1, 0] [1, 1] [1, 2] [1, 3] [1, 4] [1, 5] [2, 0] [2, 1] [2, 2] [2, 3] [2, 4] [2, 5];
     c09_iter: [0] [1] [2] [3];
     c09_keys: [0] [1] [2] [3];
     c09_values: [0] [1] [2] [3];
@@ -532,6 +618,8 @@ harnesses! {
     c10_drain: [0] [1] [2] [3];
     c10_set_drain: [0] [1] [2] [3];
     @deep
+    c09_zst: [0, 0] [0, 1] [0, 2] [0, 3] [0, 4] [0, 5] [3, 0] [3, 1] [3, 2] [3, 3] [3, 4] [3, 5];
+    c10_zst: [0, 0] [0, 1] [0, 2] [0, 3] [0, 4] [0, 5] [3, 0] [3, 1] [3, 2] [3, 3] [3, 4] [3, 5];
     c10_drain_methods: [4] [5];
     c10_set_drain_methods: [4] [5];
     c09_provided: [4];
